@@ -183,6 +183,25 @@ NEEDS = {
     "C17-9": "an -i argument that contributes no parameter file (notes directory, other file kind) after one that does: the earlier parameters are dropped",
     "C18-9": "substring(s, i, j) with i < len(s) < j: the tail instead of skipping the string",
     "C19-9": "a string property whose value is the empty string: no clause (and no rule if it is the only property)",
+    "C01-10": "a `some <query> { .. }` block whose body is SKIP for every selected value: FAIL instead of SKIP",
+    "C02-10": "non-structured validate over several data files for one rules file, a rule referenced by name whose status differs between the documents: the reference sees the status of an earlier document",
+    "C03-10": "a singly negated == / in whose right-hand side is a query that selects nothing (left side selects something): PASS instead of SKIP",
+    "C04-10": "three nested parameterised rules, the middle one called twice from the outer one on the same value with different arguments: the second call gets the first call's status",
+    "C05-10": "more than 64 passing `not p(x)` calls accumulated in one process (several data files): later pairs fail with the nesting-depth error",
+    "C06-10": "non-structured validate with --print-json and a FAIL evaluation: exit 0",
+    "C07-10": "--structured -o junit on rules whose evaluation ends in an error: exit 5 with an <error> case, every other rendering exits 255",
+    "C08-10": "a rules file with a syntax error followed by more than 120 bytes where byte 120 falls inside a multi-byte character: panic while formatting the parse error",
+    "C09-10": "`not %x empty` (prefix form, on a variable or a filter-terminated query) over values of which some pass: the passing values are recorded and listed as failed",
+    "C10-10": "default console output on a CloudFormation template, a failing comparison whose left side lies outside Resources and whose right side inside: PropertyPath of the right side next to the value of the left",
+    "C11-10": "a map entry whose value is an empty string (any syntax) loaded by validate: null",
+    "C12-10": "a document with two competing spellings of a key evaluated after a document with one spelling, rule key in a third spelling: the converter preferred last time wins",
+    "C13-10": "null compared through equality of values (null in a list literal, query == query, maps/lists containing null): not equal to itself",
+    "C14-10": "a filter whose first clause starts with a quoted key directly after `[` (no blank): rejected by the parser",
+    "C15-10": "a `let x` inside a `when` block inside a rule whose guard reads an outer %x: the guard sees the inner binding",
+    "C16-10": "`test -o junit` with an unmet expectation: the <failure> text has expected and evaluated swapped",
+    "C17-10": "non-structured run with -i and a rules file that never spells a parameter key literally (walks this.* / keys, or another case convention): the parameters are not merged",
+    "C18-10": "parse_epoch of a timestamp with a non-zero UTC offset: the offset is ignored",
+    "C19-10": "a property with 9-15 (17-23, ..) distinct values for one type: the last incomplete group of eight is missing from the IN list",
 }
 
 
